@@ -6,7 +6,7 @@
 From Coq Require Import Reals Lra List Bool.
 Import ListNotations.
 Open Scope R_scope.
-From MD Require Import lib.NumpyR.
+From MD Require Import lib.NumpyR lib.NumpyR2.
 
 (* ------------------------------------------------------------------ *)
 (* identification functions V(y, z): y observation, z prediction       *)
@@ -93,6 +93,11 @@ Definition spec_hqs (h a y z : R) : result R :=
   if hqs_domb h y z then Ok ((ge_ind z y - a) * (Gq h z - Gq h y)) else ValueErr.
 
 (* ------------------------------------------------------------------ *)
-(* elementary scores: (1{eta<=z} - 1{eta<=y}) V(y, eta) *)
+(* elementary scores: (1{eta<=z} - 1{eta<=y}) V(y, eta); for the quantile and the
+   median, whose V uses 1{eta >= y}, the matching threshold indicators are the
+   strict ones (library fix 42d574f): (1{eta<z} - 1{eta<y}) V(y, eta) *)
+Definition elem_strict (f : fnl) : bool :=
+  match f with Fmedian | Fquantile => true | _ => false end.
 Definition spec_elem (eta : R) (f : fnl) (a y z : R) : result R :=
-  rbind (spec_V f a y eta) (fun v => Ok ((le_ind eta z - le_ind eta y) * v)).
+  rbind (spec_V f a y eta) (fun v =>
+    Ok ((if elem_strict f then lt_ind eta z - lt_ind eta y else le_ind eta z - le_ind eta y) * v)).
